@@ -14,6 +14,7 @@ const Cfg cfgs[] = {
   {"set/less/lfrc", mk<SetAd<Set<rc::LFRC>>>},
   {"set/less/qsbr", mk<SetAd<Set<rc::QSBR>>>},
   {"set/less/debra0", mk<SetAd<Set<rc::DEBRA<0>>>>},
+  {"set/less/backoff_exp2/ebr0", mk<SetAd<xenium::harris_michael_list_based_set<int, xp::reclaimer<rc::EBR<0>>, xp::backoff<xenium::exponential_backoff<2>>>>>},
 };
 HMHarness h("hmlist", cfgs, sizeof(cfgs) / sizeof(cfgs[0]));
 struct Reg { Reg() { xsim::register_harness(&h); } } reg;
